@@ -1,15 +1,18 @@
 SPECIFICATION Spec
 CONSTANTS
   Deviations <- AllDevs
-  MaxCalls = 3
+  MaxCalls = 4
   MaxDepth = 1
   Ops = {"Add"}
   LitMenu = {"i1"}
   InMenu = {1, 4}
   Trips = {2}
-  Kinds = {"if", "loop"}
-  FnMenu = {1, 2, 3, 4}
-  LitOnly = FALSE
+  Kinds = {"if", "call"}
+  FnMenu = {4}
+  LitOnly = TRUE
   Sim = FALSE
-INVARIANT NeverClash
+INVARIANT DesignOK
+INVARIANT DeviationsExplain
+INVARIANT ScopeBalanced
+INVARIANT Report
 CHECK_DEADLOCK FALSE
